@@ -116,3 +116,42 @@ def validate_batch(batch, module="Trace_System.tla", cfg="Trace_System.cfg", sha
         shutil.rmtree(wd, ignore_errors=True)
     tot["wall_s"] = time.time() - t0
     return results, tot
+
+
+CASE_RE = re.compile(r'^<<"CASE", "(.*)">>$', re.M)
+
+
+def eval_batch(module, cases, shards=8, timeout=900, cfg="Eval.cfg"):
+    """Evaluate a pure-function TLA+ module on a batch of harness-enumerated cases.
+    The module prints one <<"CASE", ToJson(result)>> line per case (result.t = 1-based index)."""
+    n = len(cases)
+    if n == 0:
+        return [], {"wall_s": 0.0}
+    shards = max(1, min(shards, (n + 199) // 200))
+    parts = [list(range(s, n, shards)) for s in range(shards)]
+    wd = workdir("eval")
+    out_all = [None] * n
+    t0 = time.time()
+
+    def one(si):
+        idxs = parts[si]
+        path = os.path.join(wd, f"cases_{si}.json")
+        with open(path, "w") as f:
+            json.dump([cases[k] for k in idxs], f)
+        rc, out, wall = run_tlc(module, cfg, env={"BATCH_FILE": path}, workers=1, timeout=timeout)
+        res = []
+        for m in CASE_RE.findall(out):
+            res.append(json.loads(json.loads('"' + m + '"')))
+        if len(res) != len(idxs) or rc != 0:
+            log = os.path.join(wd, f"eval_{si}.log")
+            with open(log, "w") as f:
+                f.write(out)
+            raise MachineryError(f"TLC evaluated {len(res)} of {len(idxs)} cases (rc={rc}); log {log}")
+        return si, res
+
+    with ThreadPoolExecutor(max_workers=shards) as ex:
+        for si, res in ex.map(one, range(shards)):
+            for r in res:
+                out_all[parts[si][r["t"] - 1]] = r
+    shutil.rmtree(wd, ignore_errors=True)
+    return out_all, {"wall_s": time.time() - t0}
